@@ -178,4 +178,46 @@ def charsOk : Parsed → Bool
         | _, _ => false)
      | some _, some _ => false)
 
+/-! ## what holds of every record the parser returns (derived, not assumed) -/
+
+/-- a character that can be in a path segment `urlsplit` + `pathsplit` return: not `/ ? #`, not
+TAB CR LF -/
+def cleanChar (c : Char) : Bool := c ≠ '/' && c ≠ '?' && c ≠ '#' && !isUnsafeUrlChar c
+
+/-- a path segment as the routes read it: made of `cleanChar`s, no white space at either end
+(the blanks around each segment are dropped before routing) -/
+def segClean (s : Str) : Bool := s.all cleanChar && !blankHead s && !blankLast s
+
+/-- the album id read from the segment `a.<album>`: the end of that segment -/
+def albumClean (a : Str) : Bool := a.all cleanChar && !blankLast a
+
+/-- **every field that goes to the path of the canonical url is a clean segment**: the
+conclusion of `Ural.Props.C19.Facebook.parsed_path_fields_clean` (the fields that go to the
+query are not constrained: a query value can hold any character, decoded from an escape; nor is
+the id of a `FacebookUser`, which the people route reads from the path but the url carries in
+its query) -/
+def pathFieldsClean : Parsed → Bool
+  | .user _ _ => true
+  | .handle h => segClean h
+  | .group id h =>
+    (match id, h with
+     | some g, none => segClean g
+     | none, some g => segClean g
+     | _, _ => true)
+  | .post id pid ph gid gh =>
+    (match pid, ph, gid, gh with
+     | none, some x, none, none => segClean x && segClean id
+     | none, none, some g, none => segClean g && segClean id
+     | none, none, none, some g => segClean g && segClean id
+     | _, _, _, _ => true)
+  | .video id pid =>
+    (match pid with
+     | none => true
+     | some p => segClean p && segClean id)
+  | .photo id gid pid ph aid =>
+    (match pid, ph, gid, aid with
+     | some p, none, none, some a => segClean p && segClean id && albumClean a
+     | none, some p, none, some a => segClean p && segClean id && albumClean a
+     | _, _, _, _ => true)
+
 end Ural.Facebook
